@@ -60,7 +60,7 @@ TEXTS = {
     },
     "C04": {
         "text": "Lean theorems: the scanner returns a token list on every input (lex_never_fails: fuel suffices, every token is non-empty and in range) and slices only at character boundaries of well-formed UTF-8 (lex_slices_on_char_boundaries); linear pass count; reference validity of the line builder; totality of every model function; "
-                "the wrapper stage with the search inside never aborts (wrapper_stage_never_aborts: wrapStageFull answers for every token state and every line list whose token indices are in range and whose parents are earlier lines - apply_solution_never_aborts for every solution that fits the lines, search_returns_fitting_solutions by a decision-count invariant through the search loops and a bound on the child-line indices, top_parent_walk_ends, mls_pass1/2_never_abort); the whole parser is an exact, total, fuel-bounded Lean model (pfull stream: it answers on every case - no panic site reached, fuel never exhausted - and agrees with the real parser); for the real control flow (parser, wrapper search) a monitor: catch_unwind + hang detector per case on a debug "
+                "formatFull_answers_iff_parser_answers / formatFull_none_iff (the closed model of the whole formatter answers exactly when the parser model answers: scanner, consolidators, ignore marks, token rules, wrapper stage with the search, reconstructor cannot fail - the lines the parser model returns are in range with earlier parents (parse_lines_ok), voiding and the token rules keep that); the wrapper stage with the search inside never aborts (wrapper_stage_never_aborts: wrapStageFull answers for every token state and every line list whose token indices are in range and whose parents are earlier lines - apply_solution_never_aborts for every solution that fits the lines, search_returns_fitting_solutions by a decision-count invariant through the search loops and a bound on the child-line indices, top_parent_walk_ends, mls_pass1/2_never_abort); the whole parser is an exact, total, fuel-bounded Lean model (pfull stream: it answers on every case - no panic site reached, fuel never exhausted - and agrees with the real parser); for the real control flow (parser, wrapper search) a monitor: catch_unwind + hang detector per case on a debug "
                 "build, deterministic work counters against linear bounds, enumeration of all token sequences up to length 3 "
                 "(thorough). Partial by nature: termination of the parser's and the search's own loops is observed, not proved.",
         "design_ref": "DESIGN.md section 5 (C04)",
